@@ -297,6 +297,11 @@ def clause_keyring(prog, rep):
                   "new_with_key checks the header of an existing file and refuses a plain database", "new_with_key no longer refuses an existing unencrypted file", f.loc())
 
 
+def clause_names(prog, rep):
+    import common as K
+    K.clause_swapped_args(prog, rep, "keyring", lambda fl: "mdk-sqlite-storage" in fl or "mdk-uniffi" in fl, 4)
+
+
 def run(ctx, rep):
     prog = ctx.prog()
     rep.fns_analysed = len(list(prog.nontest_fns(SQ)))
@@ -310,5 +315,6 @@ def run(ctx, rep):
     clause_pragmas(prog, rep)
     clause_permissions(prog, rep)
     clause_keyring(prog, rep)
+    clause_names(prog, rep)
     witness.check_examples(rep, ctx.witness(), ["cf_encconfig_display", "ok_encconfig_display", "cf_encconfig_serialize", "ok_encconfig_serialize",
                                                 "cf_encconfig_key_private", "ok_encconfig_key_private", "cf_sqlite_connection_private", "ok_sqlite_connection_private"])
